@@ -460,7 +460,7 @@ INSTANCE IntArith WITH WordBits <- 64, K <- 136, MaxShift <- 512
 `
 
 func runBig(c *core.Ctx, pool *core.Pool, generic map[string]bool) error {
-	vecs := bigVectors(c.Rand, c.Pick(320, 6000))
+	vecs := bigVectors(c.Rand, c.Pick(320, 1500)) // each distinct claim is one Apalache run (about 0.6 s idle, several seconds under load)
 	c.Logf("big instance: %d operand vectors (boundary pool +-{0,1,2,3,7,10,2^31,2^32,2^62,2^63-1,2^63,2^63+1,2^64,10^30,2^127}+{-1,0,1}, seeded random up to 130 bits)", len(vecs))
 	t0 := time.Now()
 	direct, err := runDirectAll(pool, vecs)
